@@ -42,6 +42,11 @@ def plan(tier, seed):
     return specs
 
 
+def _unattributed(c):
+    return [f'the signal-memory sanitizer could not attribute {c[k]} accesses to an operation (counter {k}): the kernels are not entered through the hooked names'
+            for k in ('san/unattributed', 'lsan/unattributed') if c.get(k, 0)]
+
+
 def conclude(agg):
     c = agg['counters']
     r = [f'monitor counter {k} is zero' for k in ('heap_events', 'heap/splits', 'heap/merges_both', 'heap/tail_trims_cascade', 'heap/exact_fits',
@@ -49,7 +54,7 @@ def conclude(agg):
                                                   'simops_heap_events', 'reached/heap-split', 'reached/heap-merge-next', 'reached/heap-merge-prev',
                                                   'reached/heap-tail-cascade', 'corpus_circuits')
          if c.get(k, 0) == 0]
-    return r
+    return r + _unattributed(c)
 
 
 def _sim():
